@@ -7,6 +7,7 @@ import (
 	"fmt"
 	"io"
 	"strings"
+	"time"
 	"unicode/utf8"
 
 	"github.com/hattya/go.sh/ast"
@@ -43,6 +44,7 @@ type parseObs struct {
 	N         int          `json:"n"` // number of commands
 	Sk        []string     `json:"sk"`
 	Shapes    []string     `json:"shapes"`
+	Hd        []proj.HdObs `json:"hd"`
 	Comments  []commentObs `json:"comments"`
 	Remaining int          `json:"remaining"` // runes left in the scanner (scanner/string sources)
 	Panic     string       `json:"panic"`
@@ -159,7 +161,22 @@ func envFor(aliases map[string]string) *interp.ExecEnv {
 	return env
 }
 
-func runParse(c parseCase) (o parseObs) {
+// runParse runs one parse under a watchdog: a call that does not return
+// within hangTimeout is reported as panic "HANG" (its goroutines leak).
+func runParse(c parseCase) parseObs {
+	ch := make(chan parseObs, 1)
+	go func() { ch <- runParse1(c) }()
+	select {
+	case o := <-ch:
+		return o
+	case <-time.After(hangTimeout):
+		return parseObs{ID: c.ID, Err: proj.ErrInfo{Class: "hang"}, Sk: []string{}, Shapes: []string{}, Hd: []proj.HdObs{}, Comments: []commentObs{}, Remaining: -1, Panic: "HANG"}
+	}
+}
+
+var hangTimeout = 5 * time.Second
+
+func runParse1(c parseCase) (o parseObs) {
 	o.ID = c.ID
 	o.Remaining = -1
 	defer func() {
@@ -209,9 +226,12 @@ func runParse(c parseCase) (o parseObs) {
 	if perr != nil {
 		o.ProjErr = perr.Error()
 	}
-	o.Sk, o.Shapes = sk.Sk, sk.Shapes
+	o.Sk, o.Shapes, o.Hd = sk.Sk, sk.Shapes, sk.Hd
 	if o.Sk == nil {
 		o.Sk, o.Shapes = []string{}, []string{}
+	}
+	if o.Hd == nil {
+		o.Hd = []proj.HdObs{}
 	}
 	o.Comments = commentsObs(comments)
 	if cs != nil {
